@@ -171,6 +171,16 @@ Proof.
     rewrite O, R; split; congruence.
 Qed.
 
+Lemma leaf_accessors_panic_iff_unchecked_l : forall d i, blen d = PAGE_SIZE -> bytes_ok d = true -> 0 <= i ->
+  (leaf_slot_at d i = Panic <-> leaf_slot_oob d i = true) /\ (leaf_key_at d i = Panic <-> leaf_slot_oob d i = true) /\
+  (leaf_value_len_at d i = Panic <-> leaf_slot_oob d i = true) /\ (leaf_value_at d i = Panic <-> leaf_slot_oob d i = true).
+Proof.
+  intros d i H1 H2 H3.
+  split; [apply (leaf_slot_at_panic_iff_l d i H1 H2 H3)|].
+  split; [apply (leaf_key_at_panic_iff_l d i H1 H2 H3)|].
+  split; [apply (leaf_value_len_at_panic_iff_l d i H1 H2 H3) | apply (leaf_value_at_panic_iff_l d i H1 H2 H3)].
+Qed.
+
 (* ------------------------------------------------------------------ results are slices of the page *)
 Lemma leaf_results_inside_l : forall d i, blen d = PAGE_SIZE -> bytes_ok d = true -> 0 <= i ->
   (forall k, leaf_key_at d i = Ok k ->
